@@ -10,7 +10,7 @@
 //   O jt      multiplyBySystemJacobianTranspose(F)
 // P lines: the property's predicates on the implementation's own outputs.
 #include "treedyn_gen.h"
-static_assert(TREEDYN_GEN_VERSION == 8, "bump the version here when treedyn_gen.h changes");
+static_assert(TREEDYN_GEN_VERSION == 10, "bump the version here when treedyn_gen.h changes");
 using namespace SimTK;
 using td::TreeCase;
 
